@@ -200,7 +200,7 @@ def shard(items, n):
     return [items[i:i + k] for i in range(0, len(items), k)]
 
 
-def drive(fam, progs, name, shards=NCPU, race=False, timeout=1800):
+def drive(fam, progs, name, shards=NCPU, race=False, timeout=1800, env_extra=None):
     """Execute programs on the real library; returns list of trace files (one
     per shard) and the number of programs run."""
     d = os.path.join(RUN, name)
@@ -214,6 +214,8 @@ def drive(fam, progs, name, shards=NCPU, race=False, timeout=1800):
         pout = os.path.join(d, "traces.%d.ndjson" % i)
         write_ndjson(pin, parts[i])
         env = dict(os.environ, GORACE="halt_on_error=1 exitcode=66") if race else None
+        if env_extra:
+            env = dict(env or os.environ, **env_extra)
         p = subprocess.run([exe, "-fam", fam, "-in", pin, "-out", pout], capture_output=True, text=True, timeout=timeout, env=env)
         if race and (p.returncode == 66 or "DATA RACE" in p.stderr):
             # the race detector stopped the driver: record it as an event of the program that was running
@@ -230,6 +232,13 @@ def drive(fam, progs, name, shards=NCPU, race=False, timeout=1800):
     with ThreadPoolExecutor(max_workers=shards) as ex:
         files = list(ex.map(one, range(len(parts))))
     return files
+
+
+def drive_history(fam, seq, name, attempt):
+    """Re-run a history in one fresh process. Process-wide pools (sync.Pool) depend on which P a goroutine runs on: the first
+    attempts pin the driver to one P, which makes them deterministic."""
+    rundir(name)
+    return drive(fam, seq, name, shards=1, env_extra={"GOMAXPROCS": "1"} if attempt < 2 else None)
 
 
 def history_of(progs, prog_id, shards=NCPU):
